@@ -26,6 +26,79 @@ class PidApp:
         return [b"ok"]
 
 
+class BoomApp:
+    """Every request fails inside the application (answered with 500): it has been handled all the same."""
+    def __call__(self, environ, start_response):
+        raise RuntimeError("scripted application failure")
+
+
+def e2_failing_cell(run, e2, kind, m, j):
+    """max_requests counts requests handled, also those the application failed."""
+    v = []
+    h = e2.Harness(kind, {"max_requests": m, "max_requests_jitter": j, "keepalive": 2})
+    h._keep_alive_flag = False
+    try:
+        w = h.worker
+        n = 0
+        pattern = [True, False, True, True]        # which requests fail
+        while n < m + j + 3:
+            fails = pattern[n % len(pattern)]
+            out = h.connection(b"GET /r HTTP/1.1\r\nHost: h\r\n\r\n", BoomApp() if fails else PidApp())
+            res = ref_resp.parse(out["received"], ["GET"], closed=out["eof"])
+            if res.problem or len(res.responses) != 1 or res.responses[0].status != (500 if fails else 200):
+                v.append(("response-incomplete-around-limit", "request %d (%s, application %s): problem=%s statuses=%s" % (
+                    n + 1, kind, "fails" if fails else "ok", res.problem, [r.status for r in res.responses])))
+                break
+            n += 1
+            if w.alive and n >= m + j:
+                v.append(("worker-not-stopped-at-limit/failed-requests-not-counted", "%s worker still alive after %d handled requests of "
+                          "which %d failed in the application (max_requests=%d, jitter=%d)" % (
+                              kind, n, sum(1 for i in range(n) if pattern[i % 4]), m, j)))
+                break
+            if not w.alive:
+                if n < m:
+                    v.append(("worker-stopped-early", "%s worker stopped after %d requests (max_requests=%d)" % (kind, n, m)))
+                run.count("e2_limit_reached_with_failing_requests")
+                break
+    finally:
+        h.close()
+    return v
+
+
+def e5_cell(run, e5, rng):
+    """The threaded worker leaving its loop at max_requests while work is queued for its pool (scripted scheduler, engine E5):
+    a request that was handed to the pool is handled, not dropped."""
+    from checks import c13
+    cfg = {"threads": rng.randint(1, 2), "worker_connections": rng.choice([4, 6, 10]), "keepalive": rng.choice([0, 2]),
+           "max_requests": rng.randint(1, 4)}
+    if rng.random() < 0.3:
+        cfg["_lock_delay"] = rng.choice([0.3, 0.6])
+        cfg["_lock_seed"] = rng.randrange(1 << 30)
+    n = rng.randint(2, 5)
+    hist = []
+    for cid in range(n):
+        hist.append(("connect", cid, 0))
+        hist.append(("send", cid, rng.choice(["ka", "close", "ka"])))
+        if rng.random() < 0.2:
+            hist.append(("time", 0.3))
+    hist.append(("time", 1.0))
+    for cid in range(n):
+        if rng.random() < 0.5:
+            hist.append(("send", cid, "ka"))
+    hist.append(("time", 3.0))
+    case = {"cfg": cfg, "listeners": 1, "polite": True, "history": [list(x) for x in hist]}
+    k = e5.run_history(cfg, [tuple(x) for x in hist], 1)
+    judged = ("dispatched-request-dropped-before-handling", "request-read-then-connection-closed-unanswered",
+              "closed-under-running-request")
+    v = [(m, s) for m, s in k.violations if m in judged]
+    run.count("e5_histories")
+    if k.worker is not None and not k.worker.alive and getattr(k, "end", "") == "returned":
+        run.count("e5_worker_left_loop_at_limit")
+    if k.reach.get("queued_work_cancelled_at_shutdown"):
+        run.count("e5_queued_work_cancelled")
+    return v, case, k
+
+
 def e2_cell(run, e2, kind, m, j, per_conn):
     v = []
     h = e2.Harness(kind, {"max_requests": m, "max_requests_jitter": j, "keepalive": 2})
@@ -89,7 +162,12 @@ def live_scenario(run, e4, sc):
     settings = {"max_requests": m, "max_requests_jitter": j, "graceful_timeout": 5, "timeout": 30, "keepalive": 2}
     if wc == "gthread":
         settings["threads"] = 4
-    srv = e4.Server("c18", worker_class=wc, workers=nworkers, settings=settings, bind="tcp")
+    app_source = None
+    if sc.get("failing"):
+        settings["accesslog"] = "-"
+        settings["access_log_format"] = "ACCESS pid=%(p)s %(U)s %(s)s"
+        app_source = e4.APP_SOURCE.replace('    if kind == "pid":', '    if kind == "boom":\n        raise RuntimeError("scripted application failure")\n    if kind == "pid":', 1)
+    srv = e4.Server("c18", worker_class=wc, workers=nworkers, settings=settings, bind=sc.get("bind", "tcp"), app_source=app_source)
     try:
         srv.start()
         w0 = srv.wait_workers(nworkers, 25)
@@ -107,7 +185,17 @@ def live_scenario(run, e4, sc):
                     if counter[0] >= nreq:
                         return
                     counter[0] += 1
-                r = e4.request(srv.addr, "/pid", timeout=10)
+                with lock:
+                    k = counter[0]
+                addr = srv.addr2 if sc.get("bind") == "both" and k % 2 else srv.addr
+                if sc.get("failing") and k % 3 != 0:
+                    # requests that fail inside the application (the usual reason for max_requests: a worker gone bad)
+                    r = e4.request(addr, "/boom", timeout=10)
+                    r["expected_failure"] = True
+                    if r["outcome"] == "ok" or e4.status_of(r["data"]) == 500:
+                        r["outcome"] = "ok-500" if e4.status_of(r["data"]) == 500 else "boom-answered-" + str(e4.status_of(r["data"]))
+                else:
+                    r = e4.request(addr, "/pid", timeout=10)
                 log.append(r)
                 if sc.get("pace"):
                     time.sleep(sc["pace"])
@@ -150,7 +238,23 @@ def live_scenario(run, e4, sc):
                     v.append(("malformed-response", repr(r["data"][:100])))
         info.update({"outcomes": outcomes, "pids": len(per_pid), "max_per_pid": max(per_pid.values()) if per_pid else 0})
         run.count("live_requests", len(log))
-        bad = [r for r in log if r["outcome"] != "ok"]
+        if sc.get("failing"):
+            # who handled what comes from the access log (a 500 page does not name the worker)
+            per_pid = {}
+            for ln in srv.stderr().splitlines():
+                if "ACCESS pid=" in ln:
+                    try:
+                        pid = int(ln.split("ACCESS pid=")[1].split()[0].strip("<>"))
+                        per_pid[pid] = per_pid.get(pid, 0) + 1
+                    except ValueError:
+                        pass
+            info["pids"], info["max_per_pid"] = len(per_pid), max(per_pid.values()) if per_pid else 0
+            run.count("live_failing_requests", sum(1 for r in log if r.get("expected_failure")))
+            if not per_pid:
+                return v, "no access records found", info
+        if sc.get("bind") == "both":
+            run.count("live_two_listener_load")
+        bad = [r for r in log if r["outcome"] not in ("ok", "ok-500")]
         if bad:
             kinds = sorted(set(r["outcome"] for r in bad))
             zero = all(not r["data"] for r in bad)
@@ -246,6 +350,13 @@ def live_scenarios(tier, seed):
                         "concurrency": 8, "requests": 240 if tier == "quick" else 400})
         out.append({"class": rng.choice(["sync", "gthread", "gevent", "eventlet"]), "workers": 2, "max_requests": 0,
                     "jitter": rng.choice([0, 3]), "concurrency": 4, "requests": 120})
+    # requests that fail inside the application are handled requests too
+    for wc in (["sync", rng.choice(["gthread", "gevent"])] if tier == "quick" else ["sync", "gthread", "gevent", "eventlet"]):
+        out.append({"class": wc, "workers": 1, "max_requests": rng.randint(2, 4), "jitter": 0, "concurrency": 1, "requests": 40,
+                    "failing": True})
+    # a sync worker with two listeners (it then polls them in a different loop), connections waiting on both
+    out.append({"class": "sync", "workers": 2, "max_requests": rng.randint(2, 4), "jitter": rng.randint(0, 1), "concurrency": 10,
+                "requests": 200, "bind": "both"})
     for wc in ("gevent", "eventlet"):
         out.append({"class": wc, "kind": "keepalive-reuse", "workers": 1, "max_requests": 3, "jitter": 0, "concurrency": 2, "requests": 4})
     for i, sc in enumerate(out):
@@ -268,7 +379,23 @@ def shard(sh):
             run.count("e2_cells")
             for mech, summary in e2_cell(run, e2, kind, m, j, pc):
                 run.violation(mech, summary, {"part": "e2", "cell": [kind, m, j, pc]})
+            if m and pc == 1:
+                run.case(("e2-failing", kind, m, j))
+                for mech, summary in e2_failing_cell(run, e2, kind, m, j):
+                    run.violation(mech, summary, {"part": "e2-failing", "cell": [kind, m, j]})
         run.sample({"part": "e2", "cells": sh["cells"][:3]}, cap=1)
+    elif sh["kind"] == "e5":
+        from vlib import e5_gthread as e5
+        rng = rng_for(sh["seed"], "c18-e5", sh["sub"])
+        for i in range(sh["n"]):
+            if run.enough():
+                break
+            v, case, k = e5_cell(run, e5, rng)
+            run.case(("e5", common.sha12(case)))
+            if k.hang:
+                run.inconclusive_because("harness watchdog: " + k.hang)
+            for mech, summary in v:
+                run.violation("gthread/" + mech, summary + " | cfg=%s" % case["cfg"], {"part": "e5", "case": case})
     else:
         from vlib import e4_live as e4
         sc = sh["scenario"]
@@ -298,7 +425,8 @@ def main(tier, seed):
     run = Run(PROP, tier, seed, "exploration", RULE)
     run.require("e2_cells", "e2_limit_reached", "e2_unlimited_1000_requests", "live_scenarios", "live_requests",
                 "live_recycling_observed", "live_unlimited_no_recycling", "live_class/sync", "live_class/gthread",
-                "live_class/gevent", "live_class/eventlet", "live_keepalive_reuse_checks")
+                "live_class/gevent", "live_class/eventlet", "live_keepalive_reuse_checks", "e2_limit_reached_with_failing_requests",
+                "e5_histories", "e5_worker_left_loop_at_limit", "live_failing_requests", "live_two_listener_load")
     cells = []
     for kind in ("sync", "gthread", "async"):
         for m in range(0, 7):
@@ -307,6 +435,7 @@ def main(tier, seed):
                     for rep in range(2 if tier == "quick" else 8):
                         cells.append((kind, m, j, pc))
     shards = [{"kind": "e2", "cells": cells[i::12], "seed": seed, "tier": tier} for i in range(12)]
+    shards += [{"kind": "e5", "n": 150 if tier == "quick" else 3000, "sub": i, "seed": seed, "tier": tier} for i in range(4)]
     shards += [{"kind": "live", "scenario": sc, "seed": seed, "tier": tier} for sc in live_scenarios(tier, seed)]
     run.assumptions = [
         "concurrent workers may finish the connections already accepted when the limit is hit: bounded by the number of concurrent client connections the harness opens",
@@ -324,6 +453,15 @@ def replay(path):
     if c["part"] == "e2":
         from vlib import e2_worker as e2
         v = e2_cell(run, e2, *c["cell"])
+    elif c["part"] == "e2-failing":
+        from vlib import e2_worker as e2
+        v = e2_failing_cell(run, e2, *c["cell"])
+    elif c["part"] == "e5":
+        from vlib import e5_gthread as e5
+        k = e5.run_history(c["case"]["cfg"], [tuple(x) for x in c["case"]["history"]], 1)
+        for e in k.log:
+            print("  ", e)
+        v = list(k.violations)
     else:
         from vlib import e4_live as e4
         fn = keepalive_reuse_scenario if c["scenario"].get("kind") == "keepalive-reuse" else live_scenario
